@@ -410,7 +410,7 @@ def main_property(prop, tier, cells, meta, jobs=None):
     vcount = 0
     for v in violations:
         os.makedirs(os.path.join(REPLAY_DIR, prop), exist_ok=True)
-        fn = re.sub(r'[^A-Za-z0-9_.-]+', '_', '%s__%s' % (v['cell'], v['obligation']))[:120] + '.json'
+        fn = re.sub(r'[^A-Za-z0-9_.-]+', '_', '%s__%s' % (v['cell'], v['obligation']))[:110] + ('_p' + v['path'][:24] if v.get('path') else '') + '.json'
         path = os.path.join(REPLAY_DIR, prop, fn)
         with open(path, 'w') as f:
             json.dump(v, f, indent=1, default=str)
